@@ -417,6 +417,13 @@ class History:
         g.instantiate(preopens=[self.B])
         g.poke(0, bytes(r.getrandbits(8) for _ in range(ARENA)))
         g.expect_crc()
+        if r.random() < 0.2:
+            # the guest closes a standard stream first: the host's lowest descriptor numbers (0, 1) are then free and the next opens
+            # receive them - file I/O must not depend on which native number a file happens to get
+            victim = r.choice([0, 0, 1])
+            abi0 = self.abi()
+            i0 = g.call('fd_close', [victim], abi=abi0)
+            self.finish_call(i0, 'fd_close', 0, ('fd_close', abi0, 'ok', 'stdio-%d' % victim))
         for i in range(3):
             self.op_open()
         for i in range(self.nops):
